@@ -150,16 +150,20 @@ Scenario generate(const std::string& prop, uint64_t seed, const std::string& tie
     if (prop == "C09") sc.executor = r.chance(0.3) ? "seqtsm" : "omptsm";
     else if (prop == "C18") { sc.executor = r.chance(0.25) ? "seq" : "omp"; sc.kernel = r.chance(0.5) ? "counter_weight" : "counter_test"; }
     else if (prop == "C02") {
-        static const char* ex[] = {"seq", "omp", "omp", "seqtsm", "omptsm", "omp"};
-        sc.executor = ex[r.below(6)];
-    } else if (prop == "C12" || prop == "C13") {
+        static const char* ex[] = {"seq", "omp", "omp", "seqtsm", "omptsm", "omp", "specx", "specxtsm"};
+        sc.executor = ex[r.below(8)];
+    } else if (prop == "C12") {
+        static const char* ex[] = {"seq", "omp", "omp", "seqtsm", "omptsm", "omp", "specx", "specxtsm"};
+        sc.executor = ex[r.below(8)];
+    } else if (prop == "C13") {
         static const char* ex[] = {"seq", "omp", "omp", "seqtsm", "omptsm", "omp"};
         sc.executor = ex[r.below(6)];
     } else {
-        static const char* ex[] = {"omp", "omp", "omp", "omptsm", "omptsm", "seq", "seqtsm"};
-        sc.executor = ex[r.below(prop == "C03" ? 5 : 7)];
+        static const char* ex[] = {"omp", "omp", "omp", "omptsm", "omptsm", "specx", "specxtsm", "seq", "seqtsm"};
+        sc.executor = ex[r.below(prop == "C03" ? 7 : 9)];
     }
 
+    if (const char* f = getenv("TBFSIM_FORCE_EXECUTOR")) sc.executor = f;
     // ordering
     {
         int pm = 100, pp = 0, ph = 0;
@@ -172,6 +176,7 @@ Scenario generate(const std::string& prop, uint64_t seed, const std::string& tie
         sc.ordering = x < pm ? "morton" : (x < pm + pp ? "periodic" : "hilbert");
         (void)ph;
         if (const char* f = getenv("TBFSIM_FORCE_ORDERING")) sc.ordering = f;
+        if (sc.executor.rfind("specx", 0) == 0 || sc.executor.rfind("starpu", 0) == 0) sc.ordering = "morton";
     }
 
     sc.height = int(pickWeighted(r, {{1, 3}, {2, 7}, {3, 25}, {4, 32}, {5, 25}, {6, 8}}));
